@@ -1,6 +1,7 @@
 //! `vcheck <id> [quick|thorough] [--replay <file>]` — one subcommand per property.
 
 mod common;
+mod anim;
 mod c01;
 mod c02;
 mod c20;
@@ -53,6 +54,10 @@ fn main() {
         let v: serde_json::Value = serde_json::from_str(&txt).unwrap_or_else(|e| machinery_fail(&format!("parse {path}: {e}")));
         let ok = match id.as_str() {
             "C01" => c01::replay(&v["case"]),
+            "C04" => anim::replay(&v["case"], anim::Prop::C04),
+            "C05" => anim::replay(&v["case"], anim::Prop::C05),
+            "C06" => anim::replay(&v["case"], anim::Prop::C06),
+            "C07" => anim::replay(&v["case"], anim::Prop::C07),
             "C02" => c02::replay(&v["case"]),
             "C20" => c20::replay(&v["case"]),
             "C14" => c14::replay(&v["case"]),
@@ -76,6 +81,10 @@ fn main() {
     let run = Run::start(&id, &tier);
     match id.as_str() {
         "C01" => c01::run(run),
+        "C04" => anim::run(run, anim::Prop::C04),
+        "C05" => anim::run(run, anim::Prop::C05),
+        "C06" => anim::run(run, anim::Prop::C06),
+        "C07" => anim::run(run, anim::Prop::C07),
         "C02" => c02::run(run),
         "C20" => c20::run(run),
         "C14" => c14::run(run),
